@@ -175,7 +175,7 @@ def rand_custom(n, r, f=np.random.randn):
     n = np.asanyarray(n, dtype=int)
     d = n.size
 
-    if isinstance(r, (int, float)):
+    if isinstance(r, (int, float, np.integer, np.floating)):
         r = [1] + [int(r)] * (d - 1) + [1]
     r = np.asanyarray(r, dtype=int)
 
@@ -239,7 +239,7 @@ def rand_stab(n, r, noise=1.E-15, seed=None):
     n = np.asanyarray(n, dtype=int)
     d = n.size
 
-    if isinstance(r, (int, float)):
+    if isinstance(r, (int, float, np.integer, np.floating)):
         r = [1] + [int(r)] * (d - 1) + [1]
     r = np.asanyarray(r, dtype=int)
 
